@@ -191,11 +191,11 @@ NEAR_CANCEL = [1e-5, -3e-6, 4e-7, 1e-7, -5e-8, 8e-9, -2e-9, 2.5e-10]
 
 
 @st.composite
-def sums(draw, max_q=5, max_terms=6, dup=True, **kw):
+def sums(draw, max_q=5, max_terms=6, dup=True, near_cancel=False, **kw):
     ts = draw(st.lists(terms(max_q=max_q, **kw), max_size=max_terms))
     if dup and ts and draw(st.integers(0, 2)) == 0:
         t = dict(draw(st.sampled_from(ts)))
-        if draw(st.integers(0, 2)) == 0 and coef(t["c"]) != 0:
+        if near_cancel and draw(st.integers(0, 2)) == 0 and coef(t["c"]) != 0:
             # a like term that nearly cancels the first one: the residue c*d is small next to the summands but is
             # (unless below the library's absolute 1e-8 zero tolerance) part of the operator
             d = draw(st.sampled_from(NEAR_CANCEL))
@@ -207,9 +207,9 @@ def sums(draw, max_q=5, max_terms=6, dup=True, **kw):
     return {"terms": ts}
 
 
-def operands(max_q=4, numbers=True, **kw):
+def operands(max_q=4, numbers=True, near_cancel=False, **kw):
     opts = [terms(max_q=max_q, **kw).map(lambda t: {"t": t}),
-            sums(max_q=max_q, max_terms=4, **kw).map(lambda s: {"s": s})]
+            sums(max_q=max_q, max_terms=4, near_cancel=near_cancel, **kw).map(lambda s: {"s": s})]
     if numbers:
         opts.append(coefs().map(lambda c: {"n": c}))
     return st.one_of(*opts)
